@@ -118,14 +118,14 @@ def r03b(ck, fb):
     s = ck.main(LIM + 'strip_log_to', 'R03b')
     if not (w and s):
         return
-    adv = util.assigned_fields(w, r'LogInnerManager$') - {'last_term', 'file_len', 'need_seek_at_write'}
+    adv = util.region_assigned_fields(fb, w, r'LogInnerManager$') - {'last_term', 'file_len', 'need_seek_at_write', 'last_flush_index'}
     ck.floor('R03b', 'cursor fields advanced by write()', len(adv), 4)
-    rew = util.assigned_fields(s, r'LogInnerManager$')
+    rew = util.region_assigned_fields(fb, s, r'LogInnerManager$')
     for f in sorted(adv):
         ck.require(f in rew, 'R03b', 'strip_log_to:rewinds:' + f, s.where(),
                    'write() advances %s but strip_log_to does not reset it: the next append after a truncation continues from a stale value' % f)
-    pushes = util.mut_calls_on_field(w, 'indexs', r'Vec::<T, A>::push$')
-    pops = util.mut_calls_on_field(s, 'indexs', r'Vec::<T, A>::(pop|truncate)$')
+    pushes = util.mut_calls_on_field(w, 'indexs', r'Vec::<T, A>::push$', deep=2)
+    pops = util.mut_calls_on_field(s, 'indexs', r'Vec::<T, A>::(pop|truncate)$', deep=2)
     ck.require(bool(pushes) and bool(pops), 'R03b', 'strip_log_to:pops-indexs', s.where(), 'index entries pushed by write() are not popped by strip_log_to')
     # msg_count/data_cursor come from the recount
     t = Taint(s, call_src=lambda t: (t.get('f') or {}).get('d', '').endswith('move_to_index_by_count'))
